@@ -26,7 +26,7 @@ def cases(tier, seed):
     rng = random.Random('C11|%d' % seed)
     T = tier == 'thorough'
     cs = []
-    nstruct = 200 if not T else 900
+    nstruct = 450 if not T else 3000
     k = 3 if not T else 12
     for i in range(nstruct):
         routine = ROUTINES[i % 4]
